@@ -524,7 +524,7 @@ func genReply(r *lib.Rng, k *kase, heavy bool) *reply {
 		k.feat(fmt.Sprintf("status%d", st))
 	default: // not an HTTP status code at all
 		rp.HasStatus = true
-		rp.StatusVal = []string{"0", "99", "1000", "-1", "abc", "0 Zero", "65536"}[r.Intn(7)]
+		rp.StatusVal = []string{"0", "99", "1000", "-1", "abc", "0 Zero", "65536", "007", "099", "-12", "+99", "000"}[r.Intn(12)]
 		rp.WantStatus = 0
 		k.feat("status-invalid:" + rp.StatusVal)
 	}
